@@ -175,6 +175,7 @@ type Process struct {
 	eventConsumersLock sync.RWMutex
 	eventConsumers     []event.IConsumer
 	subTracer          tracing.ITracer
+	monitorOnce        sync.Once
 }
 
 func (p *Process) Id() id.Id { return p.id }
@@ -604,9 +605,11 @@ func (p *Process) StartWith(ctx context.Context, element schema.FlowNodeInterfac
 	case *startEvent:
 		eventNode.Trigger(ctx)
 
-		// StartAll cease flow monitor
-		sender := p.tracer.RegisterSender()
-		go p.ceaseFlowMonitor(p.subTracer)(ctx, sender)
+		// StartAll cease flow monitor: one per instance, it waits for every start event
+		p.monitorOnce.Do(func() {
+			sender := p.tracer.RegisterSender()
+			go p.ceaseFlowMonitor(p.subTracer)(ctx, sender)
+		})
 		p.tracer.Send(InstantiationTrace{InstanceId: p.id})
 
 	case *throwEvent:
